@@ -1401,6 +1401,88 @@ def register_topology_features(R, H):
               ensures=[(f"number-of-textbook-{key}-on-a-cold-cache-else-of-listed-chains", count_post(want, field))] + common,
               notes=SIZE_NOTE)
 
+    # ------------------------------------------------ BranchFeatures.calc_angle / get_angle
+    # angle[i][j] = arccos(clip(u_i . u_j / (|u_i| |u_j| + eps))), u_i = end - start of branch i.  Through squared distances:
+    # (a - b).(c - d) = (d2(a,d) + d2(b,c) - d2(a,c) - d2(b,d)) / 2  (polarisation for two difference vectors)
+    ARCCOS_ = z3.Function("arccos", z3.RealSort(), z3.RealSort())
+
+    def ends_of(branches):
+        return [(b.fields["idx"].items[0], b.fields["idx"].items[-1]) for b in branches.items]
+
+    def dot_through_d2(g, si, ei, sj, ej):
+        sq = lambda a, b: g.d(a, b) * g.d(a, b)
+        return (sq(ei, sj) + sq(si, ej) - sq(ei, ej) - sq(si, sj)) / 2
+
+    def angle_matrix_is(E, res, t, ends, eps):
+        N = len(ends)
+        if not (isinstance(res, NArr) and res.shape == (N, N)):
+            return False
+        g, ez, out = Geo(E, t), to_z3(eps, "real"), []
+        for i, (si, ei) in enumerate(ends):
+            for j, (sj, ej) in enumerate(ends):
+                c = dot_through_d2(g, si, ei, sj, ej) / (g.d(ei, si) * g.d(ej, sj) + ez)
+                out.append(to_z3(res.items[i * N + j], "real") == ARCCOS_(z3.If(c < -1, z3.RealVal(-1), z3.If(c > 1, z3.RealVal(1), c))))
+        return z3.And(*out) if out else True
+
+    def angle_hint(get_branches, get_tree):
+        def h(E, vars):
+            vec, br = vars.get("vector"), get_branches(vars)
+            if not isinstance(vec, NArr) or br is None:
+                return
+            ends, t = ends_of(br), get_tree(vars, br)
+            g = Geo(E, t)
+            zi = lambda a: to_z3(a, "int")
+            for i, (si, ei) in enumerate(ends):
+                for j, (sj, ej) in enumerate(ends):
+                    if j < i:
+                        continue
+                    dz = sum((to_z3(vec.items[3 * i + k], "real") * to_z3(vec.items[3 * j + k], "real") for k in range(3)), z3.RealVal(0))
+                    poly = d2(g.ta, zi(ei), zi(sj)) + d2(g.ta, zi(si), zi(ej)) - d2(g.ta, zi(ei), zi(ej)) - d2(g.ta, zi(si), zi(sj))
+                    E.prove(f"BranchFeatures.calc_angle/step/polarisation-identity-{i}-{j}", 2 * dz == poly, "proof step")
+                    E.prove(f"BranchFeatures.calc_angle/step/dot-product-{i}-{j}-through-the-four-distances", dz == dot_through_d2(g, si, ei, sj, ej), "proof step")
+
+        return h
+
+    def ca_setup(lens):
+        def f(S):
+            t = sym_tree(S, "t")
+            return dict(branches=PList_([path_obj(S, t, L, cls=Tree.Branch) for L in lens]), eps=S.real("eps"), __tree__=t)
+
+        return f
+
+    LBL = "arccos-of-the-clipped-cosine-between-the-end-to-end-vectors-of-every-pair-of-branches"
+    R.add(f"{FEAT}:BranchFeatures.calc_angle", prop="C10",
+          variants={"one-branch-of-2-nodes": ca_setup([2]), "two-branches-of-2-and-3-nodes": ca_setup([2, 3]), "three-branches-of-2-2-4-nodes": ca_setup([2, 2, 4])},
+          requires=[("eps-positive", lambda E, v, o: to_z3(v["eps"], "real") > 0)],
+          options=dict(inline_calls=INLINE, hints={"post/" + LBL: angle_hint(lambda vars: vars.get("branches"), lambda vars, br: vars["__tree__"])}),
+          ensures=[(LBL, lambda E, v, o: angle_matrix_is(E, v["result"], o["__tree__"], ends_of(o["branches"]), o["eps"]))],
+          notes="1-3 branches (fixed node counts) over a tree of symbolic size, node ids and coordinates symbolic, eps any positive real (the regulariser of the "
+                "code's denominator is part of the stated formula); arccos uninterpreted.  An empty list is outside (np.matmul of an empty 1-D array)")
+
+    def ga_post(E, v, o):
+        t = v["self"].fields["tree"]
+        cache = v["self"].fields.get("_branches")
+        if node_lists(cache, t, Tree.Branch) is None:
+            return False
+        return angle_matrix_is(E, v["result"], t, ends_of(cache), o["eps"])
+
+    def ga_variants():
+        out = {}
+        for p in TOPOS + BIGGER:
+            if len(p) >= 2:
+                out["cold-cache,default-eps," + pname(p)] = (lambda S, _p=p: dict(self=S.obj(BranchFeatures, tree=topo_tree(S, _p))))
+        for p in ([-1, 0, 0, 1], [-1, 0, 1, 1]):
+            out["cold-cache,any-positive-eps," + pname(p)] = (lambda S, _p=p: dict(self=S.obj(BranchFeatures, tree=topo_tree(S, _p)), eps=S.real("eps")))
+        return out
+
+    LBL2 = "entry-i-j-is-the-angle-between-the-end-to-end-vectors-of-listed-branches-i-and-j"
+    R.add(f"{FEAT}:BranchFeatures.get_angle", prop="C10", variants=ga_variants(),
+          requires=[("eps-positive", lambda E, v, o: to_z3(v["eps"], "real") > 0)],
+          options=dict(inline_calls=INLINE, hints={"post/" + LBL2: angle_hint(lambda vars: vars["self"].fields.get("_branches") if isinstance(vars.get("self"), Obj_) else None,
+                                                                             lambda vars, br: vars["self"].fields["tree"])}),
+          ensures=[("cold-cache-is-filled-with-exactly-the-textbook-branches", listed("_branches", Tree.Branch, Topo.branches)), (LBL2, ga_post)],
+          notes="every labelled rooted tree of 2-4 nodes and 4 shapes of 6-7 nodes (a single node has no branch: the numpy calls raise, outside); default eps 1e-7 or any eps > 0")
+
     # ------------------------------------------------ NodeFeatures.get_branch_order
     from swcgeom.analysis.features import FurcationFeatures, NodeFeatures, TipFeatures
 
@@ -1712,7 +1794,7 @@ def register_extractors(R, H, PAD):
           variants={"name": lambda S: dict(feature="length", kwargs=PDict({})),
                     "name-with-keyword-arguments": lambda S: dict(feature="sholl", kwargs=PDict(dict(steps=S.int("steps")))),
                     "pair": lambda S: dict(feature=("sholl", PDict(dict(steps=S.int("steps")))), kwargs=PDict({})),
-                    "pair-with-overriding-keyword-arguments": lambda S: dict(feature=("volume", PDict(dict(accuracy=1, other=S.real("x")))), kwargs=PDict(dict(accuracy=2)))},
+                    "pair-with-overriding-keyword-arguments": lambda S: dict(feature=("volume", PDict(dict(accuracy=1, other=S.real("other")))), kwargs=PDict(dict(accuracy=2)))},
           ensures=[("name-and-the-arguments-of-the-pair-updated-by-the-keyword-arguments-in-a-dict-of-its-own", gfk_post)])
 
     # ------------------------------------------------ extract_feature and the three constructors
